@@ -93,7 +93,7 @@ def violation(step: Step, invariant, backend, symptom, detail=None):
 class Explorer:
     def __init__(self, world, *, alphabet, checks, backends=W.BACKENDS, depth=3, model_kw=None,
                  oracle="model", names="list", observe=None, limit_children=None,
-                 expect_polars_accepts=True):
+                 expect_polars_accepts=True, probes=None):
         self.world = world
         self.alphabet = alphabet  # fn(mstate, hist) -> iterable of events
         self.checks = checks  # list of fn(step) -> list of violations
@@ -104,6 +104,9 @@ class Explorer:
         self.names = names  # list | set
         self.observe = observe
         self.expect_polars_accepts = expect_polars_accepts
+        # probes(explorer, hist, mstates) -> events executed once on every accepted state
+        # (checked like any other event, never extended)
+        self.probes = probes
         self.built = {b: W.build(world, b) for b in backends}
         self.stats = Counter()
         self.outcomes = Counter()
@@ -157,6 +160,10 @@ class Explorer:
                 else:
                     ctxs[b].tables.append(tbl)
                     pushed.append(b)
+            if self.probes is not None:
+                for pev in self.probes(self, hist, mstates):
+                    self.stats["probes"] += 1
+                    self.transition(hist, mstates, sub_ctxs, pev)
             self._dfs(hist, mstates, sub_ctxs)
             for b in pushed:
                 ctxs[b].tables.pop()
@@ -326,6 +333,15 @@ class Explorer:
     def diff_model(self, mres, o, backend):
         ordered = self.model.seq_comparable(mres, backend)
         names = mres.names()
+        pat = getattr(mres, "join_pattern", None)
+        if pat is not None and names != o.names and len(names) == len(o.names):
+            # the documentation does not fix *which* integer is appended: accept any
+            # name list of the documented shape and continue with the observed names
+            nleft = len(names) - len(pat)
+            if o.names[:nleft] == names[:nleft] and pat.matches(o.names[nleft:]):
+                for cid, nm in zip(mres.visible[nleft:], o.names[nleft:]):
+                    mres.cols[cid] = nm
+                names = mres.names()
         sym = C.diff_frames(names, mres.frame_rows(), o.names, o.rows, ordered=ordered,
                             names_as_set=(self.names == "set"))
         return sym
